@@ -19,6 +19,7 @@ type Program struct {
 	Fset       *token.FileSet
 	Pkgs       map[string]*ssa.Package
 	ErrType    types.Type
+	ReflTypeT  types.Type // dynamic type used for the executor\'s reflect.Type values
 	Stubs      map[string]*ssa.Function
 	inits      []*ssa.Function
 	HasSelect  bool
@@ -61,6 +62,11 @@ func Load(dir string, patterns ...string) (*Program, error) {
 	if ep := p.Pkgs["errors"]; ep != nil {
 		if t := ep.Type("errorString"); t != nil {
 			p.ErrType = types.NewPointer(t.Type())
+		}
+	}
+	if rp := p.Pkgs["reflect"]; rp != nil {
+		if t := rp.Type("rtype"); t != nil {
+			p.ReflTypeT = types.NewPointer(t.Type())
 		}
 	}
 	// init order: dependency order of module packages
